@@ -20,6 +20,9 @@ func zzGcmIVLen(s *zzSelT) int {
 	return zzGcmIVLens[s.pick(len(zzGcmIVLens))]
 }
 
+// zzGcmIVLenNth is the i-th IV length of the thorough tier.
+func zzGcmIVLenNth(i int) int { return zzGcmIVLensT[i] }
+
 // zzGcmLenCount/zzGcmLen: a data length from {0,1,15,16,17,32,33} (quick) or, if sweep is set, every 0..40 (thorough).
 func zzGcmLenCount(sweep bool) int {
 	if vTier() == 1 && sweep {
@@ -261,27 +264,66 @@ func zzH_c12_y0() {
 	vReach("end")
 }
 
-// H12-seal: GCMEncrypt / Sm4GCM(mode=true) == GCM-AE_K(IV, P, A) of SP 800-38D.
+// H12-seal (96-bit IV): GCMEncrypt / Sm4GCM(mode=true) == GCM-AE_K(IV, P, A) of SP 800-38D.
 //
 //verif:property C12
 //verif:expect-reach end
-//verif:bound key, IV, A, P content symbolic (IV bytes 0xff included); |IV| in {12,8,17}, |A| in {0,17}, |P| in {0,1,16,17,33} (quick) / |IV| in {12,1,8,16,17,33,64}, |A| in {0,1,17}, every |P| <= 40 (thorough); odd |P| through Sm4GCM, even |P| through GCMEncrypt; block cipher and field multiplication abstract (arbitrary permutation / function, the same on both sides)
+//verif:bound key, IV, A, P content symbolic (IV bytes 0xff included); |IV| = 12, |A| in {0,17}, |P| in {0,1,16,17,33} (quick; {0,1,17} for the 17-byte IV) / |IV| every third of {12,1,8,16,17,33,64} starting at position 0, |A| in {0,1,17}, every |P| <= 40 (thorough); odd |P| through Sm4GCM, even |P| through GCMEncrypt; block cipher and field multiplication abstract (arbitrary permutation / function, the same on both sides)
 //verif:outside inputs of 2^32 blocks (counter wrap inside one message; the one-step counter function is H12-incr)
 //verif:stub github.com/tjfoc/gmsm/sm4.generateSubKeys zzStubSubKeys
 //verif:stub (*github.com/tjfoc/gmsm/sm4.Sm4Cipher).Encrypt zzStubEncrypt
 //verif:stub github.com/tjfoc/gmsm/sm4.multiplication zzStubMul
 //verif:unwind 4000
-func zzH_c12_seal() {
+func zzH_c12_seal_iv12() { zzSealCore(0) }
+
+// H12-seal (short IV): GCMEncrypt / Sm4GCM(mode=true) == GCM-AE_K(IV, P, A) of SP 800-38D.
+//
+//verif:property C12
+//verif:expect-reach end
+//verif:bound key, IV, A, P content symbolic (IV bytes 0xff included); |IV| = 8, |A| in {0,17}, |P| in {0,1,16,17,33} (quick; {0,1,17} for the 17-byte IV) / |IV| every third of {12,1,8,16,17,33,64} starting at position 1, |A| in {0,1,17}, every |P| <= 40 (thorough); odd |P| through Sm4GCM, even |P| through GCMEncrypt; block cipher and field multiplication abstract (arbitrary permutation / function, the same on both sides)
+//verif:outside inputs of 2^32 blocks (counter wrap inside one message; the one-step counter function is H12-incr)
+//verif:stub github.com/tjfoc/gmsm/sm4.generateSubKeys zzStubSubKeys
+//verif:stub (*github.com/tjfoc/gmsm/sm4.Sm4Cipher).Encrypt zzStubEncrypt
+//verif:stub github.com/tjfoc/gmsm/sm4.multiplication zzStubMul
+//verif:unwind 4000
+func zzH_c12_seal_iv8() { zzSealCore(1) }
+
+// H12-seal (long IV): GCMEncrypt / Sm4GCM(mode=true) == GCM-AE_K(IV, P, A) of SP 800-38D.
+//
+//verif:property C12
+//verif:expect-reach end
+//verif:bound key, IV, A, P content symbolic (IV bytes 0xff included); |IV| = 17, |A| in {0,17}, |P| in {0,1,16,17,33} (quick; {0,1,17} for the 17-byte IV) / |IV| every third of {12,1,8,16,17,33,64} starting at position 2, |A| in {0,1,17}, every |P| <= 40 (thorough); odd |P| through Sm4GCM, even |P| through GCMEncrypt; block cipher and field multiplication abstract (arbitrary permutation / function, the same on both sides)
+//verif:outside inputs of 2^32 blocks (counter wrap inside one message; the one-step counter function is H12-incr)
+//verif:stub github.com/tjfoc/gmsm/sm4.generateSubKeys zzStubSubKeys
+//verif:stub (*github.com/tjfoc/gmsm/sm4.Sm4Cipher).Encrypt zzStubEncrypt
+//verif:stub github.com/tjfoc/gmsm/sm4.multiplication zzStubMul
+//verif:unwind 4000
+func zzH_c12_seal_iv17() { zzSealCore(2) }
+
+func zzSealCore(ivSel int) {
 	var n, la, lp int
 	if vTier() == 0 {
 		// quick tier: a reduced product (about a third of the paths of the sweep below)
-		s := zzSel(3 * 2 * 5)
-		n = []int{12, 8, 17}[s.pick(3)]
+		lps := []int{0, 1, 16, 17, 33}
+		if ivSel == 2 {
+			// a 17-byte IV makes the counter block symbolic: every increment forks on its carries
+			lps = []int{0, 1, 17}
+		}
+		s := zzSel(2 * len(lps))
+		n = []int{12, 8, 17}[ivSel]
 		la = []int{0, 17}[s.pick(2)]
-		lp = []int{0, 1, 16, 17, 33}[s.pick(5)]
+		lp = lps[s.pick(len(lps))]
 	} else {
-		s := zzSel(zzGcmIVLenCount() * 3 * zzGcmLenCount(true))
-		n = zzGcmIVLen(s)
+		// thorough tier: the IV lengths are dealt out to the three harnesses
+		cnt := zzGcmIVLenCount()
+		mine := 0
+		for i := 0; i < cnt; i++ {
+			if i%3 == ivSel {
+				mine++
+			}
+		}
+		s := zzSel(mine * 3 * zzGcmLenCount(true))
+		n = zzGcmIVLenNth(ivSel + 3*s.pick(mine))
 		la = []int{0, 1, 17}[s.pick(3)]
 		lp = zzGcmLen(s, true)
 	}
